@@ -66,9 +66,12 @@ structure Tables where
   ctors : List CtorSpec
   waves : List String
   loaders : List (String × String)      -- circuit_component_translators
+  /-- `transform_circuit` skips components whose type is no key of the table (`true`) or hands every
+  non-ground component to the table (`false`: an unknown type raises `KeyError`) -/
+  dropUnknown : Bool := false
 
 def Gen.tables : Tables :=
-  ⟨Gen.transformersTable, Gen.transSpecs, Gen.ctorSpecs, Gen.waveTypes, Gen.componentTranslators⟩
+  ⟨Gen.transformersTable, Gen.transSpecs, Gen.ctorSpecs, Gen.waveTypes, Gen.componentTranslators, Gen.transformDropsUnknown⟩
 
 def Tables.ctor? (T : Tables) (fn : String) : Option CtorSpec := T.ctors.find? (·.fn = fn)
 def Tables.tspec? (T : Tables) (fn : String) : Option TSpec := T.trans.find? (·.fn = fn)
@@ -342,14 +345,18 @@ def Circuit.mk? (cs : List Component) : Except Err Circuit :=
 
 def Tables.hasKind (T : Tables) (k : String) : Bool := T.transformers.any (·.1 == k)
 
-/-- the comprehension of `transform_circuit` (circuit.py:38): one translator call per
-component whose kind is a key of the table, in list order -/
+/-- the `if` of the comprehension in `transform_circuit` -/
+def Tables.selects (T : Tables) (c : Component) : Bool :=
+  if T.dropUnknown then T.hasKind c.kind else decide (c.kind ≠ "ground")
+
+/-- the comprehension of `transform_circuit` (circuit.py:38): one translator call per selected
+component, in list order; `transformers[component.type]` of a type without entry is a `KeyError` -/
 def transformBranches (T : Tables) (trig : Trig) (harm : Harm) (cs : List Component) (w wres : Rat) :
     Except Err (List (Branch String GQ)) :=
-  (cs.filter (fun c => T.hasKind c.kind)).mapM fun c =>
+  (cs.filter T.selects).mapM fun c =>
     match transformComponent T trig harm c w wres with
     | some r => r
-    | none => .error (.other "unreachable: kind filtered")
+    | none => .error .keyError
 
 /-- `transform_circuit` (circuit.py:36-40): the comprehension, then `Network(...)` with its
 `__post_init__` checks -/
